@@ -84,7 +84,7 @@ class HAPCrypto:
         length_length = self.LENGTH_LENGTH
         tag_length = HAP_CRYPTO.TAG_LENGTH
 
-        while len(crypt_in_buffer) > self.MIN_BLOCK_LENGTH:
+        while len(crypt_in_buffer) >= self.MIN_BLOCK_LENGTH:
             block_length_bytes = crypt_in_buffer[:length_length]
             block_size = struct.unpack("H", block_length_bytes)[0]
             block_size_with_length = length_length + block_size + tag_length
